@@ -268,6 +268,14 @@ Theorem lit_pins :
 Proof. exact lit_pins_proof. Qed.
 Print Assumptions lit_pins.
 
+(* C11: the master's refresh loop and registration compare sizes with the limit by >= (operator code 5),
+   the crowded test by > (code 4): TopoMulti.is_full = (limit <=? size), is_crowded = (limit*9 <? size*10),
+   TopoLayout.remember_oversized = (c_limit c <=? vi_size vi) *)
+Theorem lit_collect_pins :
+  Funcs.Lit_CollectFull_cmp = 5 /\ Funcs.Lit_CollectCrowded_cmp = 4 /\ Funcs.Lit_isOversized_cmp = 5.
+Proof. exact lit_collect_pins_proof. Qed.
+Print Assumptions lit_collect_pins.
+
 (* ================= offset width: 4-byte build (gen/Funcs.v) and 5BytesOffset build (gen/Funcs5.v) (C03 C05 C07 C08) ================= *)
 
 Theorem tie_ToOffset_w4 : forall a : N, Z.of_N a <= max63 ->
